@@ -1318,6 +1318,10 @@ class VM:
                 elif not skip_removed:
                     yield i, UNDEFINED
 
+        def this_arg(args):
+            """The optional thisArg of the iteration methods."""
+            return args[1] if len(args) > 1 else UNDEFINED
+
         def array_elem_to_string(elem):
             # undefined and null convert to empty string in array join/toString
             if elem is UNDEFINED or elem is NULL:
@@ -1338,7 +1342,7 @@ class VM:
             result = JSArray()
             result._elements = []
             for i, elem in live_items():
-                val = vm._call_callback(callback, [elem, i, arr])
+                val = vm._call_callback(callback, [elem, i, arr], this_arg(args))
                 result._elements.append(val)
             return result
 
@@ -1349,7 +1353,7 @@ class VM:
             result = JSArray()
             result._elements = []
             for i, elem in live_items():
-                val = vm._call_callback(callback, [elem, i, arr])
+                val = vm._call_callback(callback, [elem, i, arr], this_arg(args))
                 if to_boolean(val):
                     result._elements.append(elem)
             return result
@@ -1425,7 +1429,7 @@ class VM:
             if not callback:
                 return UNDEFINED
             for i, elem in live_items():
-                vm._call_callback(callback, [elem, i, arr])
+                vm._call_callback(callback, [elem, i, arr], this_arg(args))
             return UNDEFINED
 
         def indexOf_fn(*args):
@@ -1453,7 +1457,7 @@ class VM:
             if not callback:
                 return UNDEFINED
             for i, elem in live_items(skip_removed=False):
-                val = vm._call_callback(callback, [elem, i, arr])
+                val = vm._call_callback(callback, [elem, i, arr], this_arg(args))
                 if to_boolean(val):
                     return elem
             return UNDEFINED
@@ -1463,7 +1467,7 @@ class VM:
             if not callback:
                 return -1
             for i, elem in live_items(skip_removed=False):
-                val = vm._call_callback(callback, [elem, i, arr])
+                val = vm._call_callback(callback, [elem, i, arr], this_arg(args))
                 if to_boolean(val):
                     return i
             return -1
@@ -1473,7 +1477,7 @@ class VM:
             if not callback:
                 return False
             for i, elem in live_items():
-                val = vm._call_callback(callback, [elem, i, arr])
+                val = vm._call_callback(callback, [elem, i, arr], this_arg(args))
                 if to_boolean(val):
                     return True
             return False
@@ -1483,7 +1487,7 @@ class VM:
             if not callback:
                 return True
             for i, elem in live_items():
-                val = vm._call_callback(callback, [elem, i, arr])
+                val = vm._call_callback(callback, [elem, i, arr], this_arg(args))
                 if not to_boolean(val):
                     return False
             return True
